@@ -456,11 +456,14 @@ def handle (op : String) (j : Json) : R Json := do
     -- the property oracle on an allocation returned by the implementation
     let inp ← inputOfJson j
     let out ← allocOfJson (← field j "out")
-    pure (Json.mkObj [("valid", Json.bool (decide (Valid inp out))),
-      ("same_keys", Json.bool (decide (SameKeys inp out))),
-      ("served", Json.bool (decide (Served inp out))),
-      ("justified", Json.bool (decide (Justified inp out))),
-      ("disjoint", Json.bool (decide (DisjointPerChip inp out)))])
+    -- `Valid` is the conjunction of the four clauses (definition of `Valid`)
+    let a := decide (SameKeys inp out)
+    let b := decide (Served inp out)
+    let c := decide (Justified inp out)
+    let d := decide (DisjointPerChip inp out)
+    pure (Json.mkObj [("valid", Json.bool (a && b && c && d)),
+      ("same_keys", Json.bool a), ("served", Json.bool b),
+      ("justified", Json.bool c), ("disjoint", Json.bool d)])
   | "hyps" =>
     let inp ← inputOfJson j
     pure (Json.mkObj [("well_formed", Json.bool (decide (WellFormed inp))),
